@@ -1,3 +1,4 @@
+import Proofs.MatchSound
 import Proofs.Fold
 /-!
 # C11 — compile-time arithmetic equals run-time arithmetic
